@@ -204,6 +204,15 @@ def somigliana(chk, prog):
     chk.ob("SOMIGLIANA.equator", fn.ref, "normal_gravity(0) == ge", lambda: eq(it.run(fn, [P.const(0)], self_obj=obj), ge(), "g(0)"), construct="g(0) == ge", **kw)
     chk.ob("SOMIGLIANA.pole", fn.ref, "normal_gravity(+/-90) == gp",
            lambda: all_of(eq(it.run(fn, [P.const(90)], self_obj=obj), gp(), "g(90)"), eq(it.run(fn, [P.const(-90)], self_obj=obj), gp(), "g(-90)")), construct="g(90) == gp", **kw)
+    # the sphere (f == 0 exactly, still rotating): whatever equality-guarded arm the code takes for e^2 == 0, the surface values at the equator and at the poles
+    # are still ge and gp (which differ on a rotating sphere: gp - ge = w^2 a (1 + ...))
+    def sphere():
+        its = Interp(prog, oracle=lambda c, i: False if c.op in ("<", ">", "<=", ">=") else None)
+        o0, *_ = ellipsoid(its, f=0)
+        ge0, gp0 = its.getattr(o0, "equatorial_normal_gravity", None), its.getattr(o0, "polar_normal_gravity", None)
+        return all_of(eq(its.run(fn, [P.const(0)], self_obj=o0), ge0, "g(0) on the sphere"), eq(its.run(fn, [P.const(90)], self_obj=o0), gp0, "g(90) on the sphere"),
+                      eq(its.run(fn, [P.const(-90)], self_obj=o0), gp0, "g(-90) on the sphere"))
+    chk.ob("SOMIGLIANA.sphere", fn.ref + "::f == 0", "on a rotating sphere normal_gravity(0) == ge and normal_gravity(+/-90) == gp", sphere, construct="g(0), g(90) on the sphere", **kw)
     lat, h = P.sym("lat"), P.sym("h")
     chk.ob("SOMIGLIANA.parity", fn.ref, "normal_gravity(-lat, h) == normal_gravity(lat, h)",
            lambda: all_of(eq(it.run(fn, [-lat], self_obj=obj), it.run(fn, [lat], self_obj=obj), "g(-lat)"),
@@ -308,6 +317,37 @@ def inherit_rule(chk, prog):
         chk.error("INHERIT: no subclass of ReferenceEllipsoid found (WGS vanished)")
 
 
+def ellipsoid_gates(chk, prog):
+    """GATE.ellipsoid: the closed forms of the decided members hold for EVERY ellipsoid; a tolerance test (np.isclose / np.allclose) on the ellipsoid's own
+    parameters inside one of them replaces the closed form on a whole band of ellipsoids (all those within the tolerance of the degenerate one).  Every
+    tolerance comparison the interpretations of this run met inside ReferenceEllipsoid / its subclasses is examined; `is_geodetic` (a documented
+    closeness test, not an identity) is the one exception."""
+    from sa.symeval import Interp as _I
+    seen = set()
+    n = 0
+    for fn_, lhs, rhs, tol, ans in list(_I.GATE_LOG):
+        rel, _, q = fn_.partition("::")
+        if not q.startswith(("ReferenceEllipsoid.", "WGS.")) or q.endswith(".is_geodetic"):
+            continue
+        try:
+            names = {P.atom(a_).name for a_ in (lhs - rhs).atoms() if P.atom(a_).kind == "sym"}
+        except Exception:
+            continue
+        if not names & {"a", "f", "GM", "w"}:
+            continue
+        key = (fn_, str(lhs)[:60], str(rhs)[:30])
+        if key in seen:
+            continue
+        seen.add(key)
+        n += 1
+        why = ("%s compares `%s` with `%s` through a tolerance test (rtol=%g, atol=%g): for every ellipsoid inside that tolerance (e.g. flattenings up to ~1e-5) the "
+               "short-cut behind it replaces the closed form, so the identities relating e'^2, E, ge, gp ... to a, f, GM, w fail there" % (q, str(lhs)[:40], str(rhs)[:30], tol[0], tol[1]))
+        chk.record("GATE.ellipsoid", "%s::isclose(%s, %s)" % (fn_, str(lhs)[:40], str(rhs)[:20]), "no tolerance gate on the ellipsoid's parameters in a decided member", verdict="VIOLATION", detail=why)
+        chk.finding("GATE.ellipsoid", rel, q, "tolerance gate on the ellipsoid's parameters", why)
+    if n == 0:
+        chk.record("GATE.ellipsoid", GEO + "::ReferenceEllipsoid", "no tolerance comparison on a, f, GM, w was met inside the decided members (%d comparisons logged in this run)" % len(_I.GATE_LOG))
+
+
 def shared(chk, prog):
     from props.c19 import shared_state
     shared_state(chk, prog, Alias(prog), modules={GEO, "ahrs/utils/wgs84.py"})
@@ -356,6 +396,7 @@ def run(chk, prog, tier):
     shared(chk, prog)
     inherit_rule(chk, prog)
     chk.require_count("INHERIT", 1)
+    ellipsoid_gates(chk, prog)
     chk.require_count("PIZZETTI", 3)
     chk.require_count("DERIVED", 4)
     canaries(chk, prog)
